@@ -103,13 +103,13 @@ class SymIndexer(SymSeq):
         sig = _sig(selection, shape, chunks)
         cache = interp.ctx.ghost.setdefault("indexers", {})
         if sig in cache:
-            self.axes, self._proj = cache[sig]
+            self.axes, self._proj, _keep = cache[sig]
         else:
             interp.ctx.note_assumption("zarr OrthogonalIndexer / ChunkGrid contract assumed (interval arithmetic per axis, row-major, "
                                        "out_selections partition the selection)")
             self.axes = [Axis(interp, sl, n, c) for sl, n, c in zip(selection, shape, chunks)]
             self._proj = {}
-            cache[sig] = (self.axes, self._proj)
+            cache[sig] = (self.axes, self._proj, (selection, shape, chunks))  # keeps the key terms alive
         self.shape = tuple(ax.b - ax.a for ax in self.axes)
         self.interp = interp
 
@@ -121,8 +121,9 @@ class SymIndexer(SymSeq):
 
     def get(self, interp, k):
         key = ("c", k) if isinstance(k, int) else tz(k).get_id()
-        if key in self._proj:
-            js = self._proj[key]
+        hit = self._proj.get(key)
+        if hit is not None and (isinstance(k, int) or hit[0].eq(tz(k))):
+            js = hit[1]
         else:
             ctx = interp.ctx
             js = []
@@ -133,7 +134,7 @@ class SymIndexer(SymSeq):
                 j = ctx.fresh_int("pj", lo=0)
                 ctx.assume(j < ax.m)
                 js.append(j)
-            self._proj[key] = js
+            self._proj[key] = (None if isinstance(k, int) else tz(k), js)
         coords, csel, osel = [], [], []
         for ax, j in zip(self.axes, js):
             q, cs, os_ = ax.proj(interp, j)
